@@ -9,7 +9,20 @@ ABORT_MACROS = ("todo", "unimplemented", "unreachable", "panic")
 def ty_matches(tystr, enum_path):
     """type strings omit the crate prefix inside the defining crate; compare on the crate-less tail"""
     t = tystr.lstrip("&").replace("mut ", "").strip()
-    t = t.split("<", 1)[0]
+    # drop trailing generic arguments only (`Foo<T>` -> `Foo`); a path may itself contain `<impl ..>` segments
+    if t.endswith(">"):
+        depth = 0
+        for i in range(len(t) - 1, -1, -1):
+            if t[i] == ">":
+                depth += 1
+            elif t[i] == "<":
+                depth -= 1
+                if depth == 0:
+                    if not t[:i].endswith("::"):
+                        t = t[:i]
+                    break
+    elif "<" in t and not t.startswith("<") and "<impl" not in t:
+        t = t.split("<", 1)[0]
     tail = enum_path.split("::", 1)[1] if "::" in enum_path else enum_path
     if t == enum_path or t == tail:
         return True
